@@ -72,7 +72,7 @@ def gen_mat(seed, n, dt="float64"):
 KINDS = ("randn", "rand", "normal")
 SITES = ("hutch", "hutch_diag", "hutch_trace", "slq", "lanczos", "arnoldi", "power", "nystrom", "adanys", "selrank", "rsvd",
          "eig_lanczos", "eig_arnoldi", "eig_power", "logdet", "expm", "lobpcg", "eig_lobpcg", "svd_lanczos", "svd_lobpcg", "eigmax_auto",
-         "sqrt_lanczos")
+         "sqrt_lanczos", "eigmax_power", "inv_cg", "inv_gmres")
 # sites that draw through randn without a key (np_fns logs a warning): key parameter absent or passed through as None
 UNKEYED = ("adanys", "selrank", "rsvd")
 LOB = ("lobpcg", "eig_lobpcg", "svd_lobpcg")
@@ -80,6 +80,8 @@ LOB = ("lobpcg", "eig_lobpcg", "svd_lobpcg")
 
 def gen_history(rnd, length, sites):
     h = []
+    ns = [rnd.randint(3, 6) for _ in range(2)]          # few sizes / dtypes per history, so that a reused algorithm object
+    dts = [rnd.choice(DTS) for _ in range(2)]           # meets operators of the same size and dtype again
     for i in range(length):
         u = rnd.random()
         if u < 0.30:
@@ -90,10 +92,11 @@ def gen_history(rnd, length, sites):
             h.append(dict(e="uset", j=rnd.randrange(i)))
         else:
             site = rnd.choice(sites)
-            h.append(dict(e="cola", site=site, n=rnd.randint(3, 6), mseed=rnd.randint(0, 10 ** 6),
+            h.append(dict(e="cola", site=site, n=rnd.choice(ns), mseed=rnd.choice([7, rnd.randint(0, 10 ** 6)]),
+                          reuse=rnd.random() < 0.7,
                           key=None if rnd.random() < 0.35 else rnd.randint(0, 2 ** 31),
                           k=rnd.choice([0, 0, 1, -1]), max_iters=rnd.randint(1, 4), tol=rnd.choice([0.02, 0.1, 0.5]),
-                          rank=rnd.randint(1, 2), dt=rnd.choice(DTS)))
+                          rank=rnd.randint(1, 2), dt=rnd.choice(dts)))
     return h
 
 
@@ -118,9 +121,19 @@ def code(c, kind=0, dt="float64"):
     return (4 * c + DTS.index(dt)) * 3 + kind
 
 
-def call_site(e, start=None):
-    """runs one cola routine (public API). Returns (payload digests, number of probe blocks)."""
+def call_site(e, start=None, algs=None):
+    """runs one cola routine (public API). Returns (payload digests, number of probe blocks).
+    `algs`: the algorithm objects of this history (dict, filled on demand): an event with reuse=True takes its Algorithm
+    instance from there - the same object that earlier events used - instead of constructing a fresh one."""
     site, n, key = e["site"], e["n"], e["key"]
+
+    def alg(cls, **kw):
+        if algs is None or not e.get("reuse"):
+            return cls(**kw)
+        k = (cls.__name__, tuple(sorted(kw.items())))
+        if k not in algs:
+            algs[k] = cls(**kw)
+        return algs[k]
     dt = e.get("dt", "float64")
     S = psd(e["mseed"], n, dt)
     G = gen_mat(e["mseed"], n, dt)
@@ -131,9 +144,9 @@ def call_site(e, start=None):
         if site == "hutch":
             out, _ = hutchinson_diag_estimate(rec.op, e["k"], tol=e["tol"], max_iters=e["max_iters"], key=key)
         elif site == "hutch_diag":
-            out = cola.linalg.diag(rec.op, e["k"], Hutch(tol=e["tol"], max_iters=e["max_iters"], key=key))
+            out = cola.linalg.diag(rec.op, e["k"], alg(Hutch, tol=e["tol"], max_iters=e["max_iters"], key=key))
         else:
-            out = cola.linalg.trace(rec.op, Hutch(tol=e["tol"], max_iters=e["max_iters"], key=key))
+            out = cola.linalg.trace(rec.op, alg(Hutch, tol=e["tol"], max_iters=e["max_iters"], key=key))
         return [flat_digest(z) for z in rec.seen] + [arr_digest(out)], len(rec.seen)
     if site == "slq":
         return [arr_digest(stochastic_lanczos_quad(P, np.log, max_iters=n, vtol=0.5, key=key))], 0
@@ -162,35 +175,41 @@ def call_site(e, start=None):
         Sg, U, V = randomized_svd(ops.Dense(G), e["rank"] + 1)
         return [arr_digest(Sg, U, V)], 0
     if site == "eig_lanczos":
-        w, V = cola.linalg.eig(P, n - 1, "LM", Lanczos(max_iters=n))
+        w, V = cola.linalg.eig(P, n - 1, "LM", alg(Lanczos, max_iters=n))
         return [arr_digest(w, V.to_dense())], 0
     if site == "eig_arnoldi":
-        w, V = cola.linalg.eig(ops.Dense(G), n - 1, "LM", Arnoldi(max_iters=n - 1))
+        w, V = cola.linalg.eig(ops.Dense(G), n - 1, "LM", alg(Arnoldi, max_iters=n - 1))
         return [arr_digest(w, V.to_dense())], 0
     if site == "eig_power":
-        w, V = cola.linalg.eig(P, 1, "LM", PowerIteration(max_iter=8))
+        w, V = cola.linalg.eig(P, 1, "LM", alg(PowerIteration, max_iter=8))
         return [arr_digest(w, V.to_dense() if hasattr(V, "to_dense") else V)], 0
     if site == "logdet":
-        return [arr_digest(cola.linalg.logdet(P, Lanczos(max_iters=n), Hutch(key=key, max_iters=e["max_iters"], tol=e["tol"])))], 0
+        return [arr_digest(cola.linalg.logdet(P, alg(Lanczos, max_iters=n), alg(Hutch, key=key, max_iters=e["max_iters"], tol=e["tol"])))], 0
     if site == "expm":
-        return [arr_digest(cola.linalg.exp(P / (2.0 * n * n), Lanczos(max_iters=n)) @ ones)], 0
+        return [arr_digest(cola.linalg.exp(P / (2.0 * n * n), alg(Lanczos, max_iters=n)) @ ones)], 0
     if site == "svd_lanczos":
         from cola.linalg.svd.svd import svd
-        U, Sg, V = svd(ops.Dense(G), 2, "LM", Lanczos(max_iters=n))
+        U, Sg, V = svd(ops.Dense(G), 2, "LM", alg(Lanczos, max_iters=n))
         return [arr_digest(U.to_dense(), Sg.to_dense(), V.to_dense())], 0
     if site == "svd_lobpcg":
         from cola.linalg.svd.svd import svd
-        U, Sg, V = svd(ops.Dense(G), 2, "LM", LOBPCG(max_iters=2))
+        U, Sg, V = svd(ops.Dense(G), 2, "LM", alg(LOBPCG, max_iters=2))
         return [arr_digest(U.to_dense(), Sg.to_dense(), V.to_dense())], 0
     if site == "eigmax_auto":            # Auto -> PowerIteration with the default key
-        return [arr_digest(cola.linalg.eigmax(P))], 0
+        return [arr_digest(cola.linalg.eigmax(P, alg(cola.Auto)))], 0
+    if site == "eigmax_power":
+        return [arr_digest(cola.linalg.eigmax(P, alg(PowerIteration, max_iter=8)))], 0
+    if site == "inv_cg":                 # no draw; the algorithm object may still be a reused one
+        return [arr_digest(cola.linalg.inv(P, alg(cola.CG, max_iters=n)) @ ones)], 0
+    if site == "inv_gmres":
+        return [arr_digest(cola.linalg.inv(ops.Dense(G), alg(cola.GMRES, max_iters=n)) @ ones)], 0
     if site == "sqrt_lanczos":           # Lanczos started from the operand: no draw at all
-        return [arr_digest(cola.linalg.sqrt(P, Lanczos(max_iters=n)) @ ones)], 0
+        return [arr_digest(cola.linalg.sqrt(P, alg(Lanczos, max_iters=n)) @ ones)], 0
     if site == "lobpcg":
         w, V = lobpcg(P, max_iters=2)
         return [arr_digest(w, V.to_dense())], 0
     if site == "eig_lobpcg":
-        w, V = cola.linalg.eig(P, 2, "LM", LOBPCG(max_iters=2))
+        w, V = cola.linalg.eig(P, 2, "LM", alg(LOBPCG, max_iters=2))
         return [arr_digest(w, V.to_dense())], 0
     raise AssertionError(site)
 
@@ -248,16 +267,17 @@ def reference_run(hist, seed0, lob_global, tabs):
 
 
 def impl_run(hist, seed0):
-    """the real thing: user events and cola calls on the process-wide generator"""
+    """the real thing: user events and cola calls on the process-wide generator; algorithm objects are shared along the history"""
     np.random.seed(seed0)
     saved, out = [], []
+    algs = {}
     for e in hist:
         before = state_digest()
         err = None
         nblk = 0
         if e["e"] == "cola":
             try:
-                p, nblk = call_site(e)
+                p, nblk = call_site(e, algs=algs)
             except Exception as ex:
                 p, err = [], type(ex).__name__
         else:
@@ -335,7 +355,7 @@ def coq_history(hist, g0, ref_states, impl, tabs, lob_global, clean):
             elif site == "nystrom":
                 tabs.need_keyed(tabs.sha[42] if key is None else key, n * e["rank"], dt)
                 evs.append(f"e_nystrom T {okey(key)} {code(n * e['rank'], 0, dt)}%nat {res}")
-            elif site in ("eig_lanczos", "eig_arnoldi", "eig_power", "expm", "svd_lanczos", "eigmax_auto", "sqrt_lanczos"):
+            elif site in ("eig_lanczos", "eig_arnoldi", "eig_power", "expm", "svd_lanczos", "eigmax_auto", "sqrt_lanczos", "eigmax_power", "inv_cg", "inv_gmres"):
                 tabs.need_keyed(tabs.sha[42], n, dt)
                 evs.append(f"e_nystrom T None {code(n, 0, dt)}%nat {res}")
             elif site in ("adanys", "selrank"):
@@ -401,5 +421,48 @@ def oracle_history(hist, impl, clean, lob_known):
         if o["err"] != clean[i][2]:
             bad.append(f"event {i}: {dsc} raised {o['err']} here but {clean[i][2]} in another global state")
         elif o["err"] is None and o["payload"] != clean[i][0]:
-            bad.append(f"event {i}: {dsc} is not bit-identical to the same call in another global state")
+            bad.append(f"event {i}: {dsc}{' with a REUSED algorithm object' if e.get('reuse') else ''} is not bit-identical to the same call "
+                       "with a fresh algorithm object in another global state")
     return bad
+
+
+ALG_SITES = ("eig_lanczos", "eig_arnoldi", "eig_power", "eigmax_power", "hutch_diag", "hutch_trace", "logdet", "expm", "svd_lanczos",
+             "svd_lobpcg", "eig_lobpcg", "sqrt_lanczos", "inv_cg", "inv_gmres")
+
+
+def reuse_sweep(rnd, lob_known, reps=1):
+    """Every routine that takes an Algorithm object, every dtype, with and without key: ONE algorithm object is used on
+    operator A, on A again, on operator B and on A again; every result must be bit-identical to the same call made with a
+    fresh object in another global state, and the global state must not move. Returns (calls, list of failed cases)."""
+    calls, bad = 0, []
+    for _ in range(reps):
+        for site in ALG_SITES:
+            if site in LOB and lob_known:
+                continue
+            for dt in DTS:
+                for key in (None, rnd.randint(0, 2 ** 31)):
+                    n = rnd.randint(3, 6)
+                    sa, sb = rnd.randint(0, 10 ** 6), rnd.randint(0, 10 ** 6)
+                    base = dict(e="cola", site=site, n=n, key=key, k=rnd.choice([0, 1, -1]), max_iters=rnd.randint(1, 4),
+                                tol=rnd.choice([0.02, 0.1, 0.5]), rank=1, dt=dt, reuse=True)
+                    algs = {}
+                    for step, ms in enumerate((sa, sa, sb, sa)):
+                        e = dict(base, mseed=ms)
+                        np.random.seed(rnd.randint(0, 2 ** 31))
+                        before = state_digest()
+                        try:
+                            p, _ = call_site(e, algs=algs)
+                            err = None
+                        except Exception as ex:
+                            p, err = [], type(ex).__name__
+                        after = state_digest()
+                        fresh = clean_result(e)
+                        calls += 1
+                        cl = []
+                        if after != before:
+                            cl.append("changed the global numpy RNG state")
+                        if err != fresh[2] or (err is None and p != fresh[0]):
+                            cl.append("with a REUSED algorithm object (call %d of A,A,B,A) is not bit-identical to the same call with a fresh object" % (step + 1))
+                        if cl:
+                            bad.append(dict(case=e, call_number=step + 1, operators="A,A,B,A with one algorithm object", failed_clauses=[f"{site}(dtype={dt}, key={key}) " + c for c in cl]))
+    return calls, bad
